@@ -355,6 +355,10 @@ func c14Case(t *rapid.T, rec *vh.Recorder, wideOnly, tall, knownTail bool) {
 			}
 			m := rapid.IntRange(0, maxApp).Draw(t, "tailAppend")
 			k := rapid.IntRange(1, maxDel).Draw(t, "tailDelete")
+			if tall {
+				// rapid favours small numbers: spread the cut over the map in eighths plus a jitter
+				k = B.Len()*(1+rapid.IntRange(0, 7).Draw(t, "tailCutEighth"))/11 + rapid.IntRange(0, 40).Draw(t, "tailCutJitter")
+			}
 			if k > B.Len() {
 				k = B.Len()
 			}
@@ -365,7 +369,7 @@ func c14Case(t *rapid.T, rec *vh.Recorder, wideOnly, tall, knownTail bool) {
 			inside := rapid.IntRange(0, 4).Draw(t, "tailInside")
 			before := rapid.IntRange(0, 3).Draw(t, "tailBefore")
 			ad, ag, ae, dd, dg, de := L, gl, &ls, R, gr, &rs
-			if rapid.IntRange(0, 3).Draw(t, "tailAppendOnRight") == 0 {
+			if rapid.IntRange(0, 3).Draw(t, "tailAppendOnRight") == 3 {
 				ad, ag, ae, dd, dg, de = R, gr, &rs, L, gl, &ls
 			}
 			put := func(d *vt.Dict, es *[]c12Edit, kk, vv vt.Row) {
@@ -415,6 +419,11 @@ func c14Case(t *rapid.T, rec *vh.Recorder, wideOnly, tall, knownTail bool) {
 			// the deleting side also removes a short run some leaves before the tail (the leaves
 			// after that run keep their rows but get shifted boundaries until the tree resynchronises)
 			shift := rapid.IntRange(0, 30).Draw(t, "tailShiftRun")
+			if tall && rapid.Bool().Draw(t, "tailPlain") {
+				// plain: nothing else changes near the cut, so the truncating side's last level-1
+				// node differs from the base only by its end
+				shift, before = 0, 0
+			}
 			shiftBack := rapid.IntRange(5, 150).Draw(t, "tailShiftBack")
 			if j0 := B.Len() - k - shiftBack - shift; shift > 0 && j0 >= 0 {
 				for i := 0; i < shift; i++ {
